@@ -66,8 +66,23 @@ def default_run_one(mod, case, tally):
             names = _re.findall(r"\b([A-Z][A-Za-z]*(?:Error|Exception|Interrupt|Exit))\b(?=[:(\n]|$)", obs.handler_exc or "", _re.M)
             names = [x for x in names if "Group" not in x]
             name = names[-1] if names else "Exception"
-            got.append({"clause": "crash", "sig": "%s.handler-crashed/%s" % (mod.ID, name),
-                        "detail": "the connection handler raised on this workload: %s" % (obs.handler_exc or "")[-700:]})
+            if not names:
+                # exception classes that do not follow the *Error naming: take the class of the innermost traceback's last line
+                last = [l.strip(" |") for l in (obs.handler_exc or "").splitlines() if l.strip(" |+-") and not l.strip(" |").startswith(("File ", "^", "~"))]
+                m_ = _re.match(r"([A-Za-z_][\w.]*)(?::|$)", last[-1]) if last else None
+                if m_:
+                    name = m_.group(1).split(".")[-1]
+            if "CaseTimeout" in (obs.handler_exc or ""):
+                # the per-case wall-clock watchdog (60 s) fired while the event loop thread was *executing* server-side code (the
+                # traceback ends inside it), not waiting: the loop - i.e. the whole worker - was blocked in a computation that does not end
+                frames = _re.findall(r'File "([^"]+)", line (\d+), in (\w+)', obs.handler_exc or "")
+                inside = [f for f in frames if "/hypercorn/" in f[0]] or [f for f in frames if "/hv/" not in f[0]]
+                where = ("%s:%s" % (inside[-1][0].split("/")[-1], inside[-1][2])) if inside else "?"
+                got.append({"clause": "spin", "sig": "%s.event-loop-blocked/%s" % (mod.ID, where),
+                            "detail": "no progress for 60 s of wall clock with the event loop thread inside %s: %s" % (where, (obs.handler_exc or "")[-900:])})
+            else:
+                got.append({"clause": "crash", "sig": "%s.handler-crashed/%s" % (mod.ID, name),
+                            "detail": "the connection handler raised on this workload: %s" % (obs.handler_exc or "")[-700:]})
         if obs.spin and not any("spin" in f["sig"] for f in got):
             got.append({"clause": "spin", "sig": "%s.spin" % mod.ID, "detail": str(obs.spin)})
         for f in got:
